@@ -188,7 +188,19 @@ def impl_apply(g, rule, n, unique, conn, n_matches=None):
     resource.setrlimit(resource.RLIMIT_AS, (cap, hard))   # a runaway call gets MemoryError, not the OOM killer
     signal.alarm(IMPL_TIMEOUT)
     try:
-        res = apply_rule(g, rule, n=n, unique=unique, connected_only=conn)
+        # how the call is written (review 3): 0 keywords, 1 positional, 2 arguments equal to the DOCUMENTED default
+        # (n=None, unique=True, connected_only=False - written down here, not read from the signature) are omitted;
+        # a fixed function of the arguments, so a replay makes the same call
+        import zlib
+        form = zlib.crc32(repr((len(g), n, unique, conn)).encode()) % 3
+        if form == 1:
+            res = apply_rule(g, rule, n, unique, conn)
+        else:
+            kw = {"n": n, "unique": unique, "connected_only": conn}
+            if form == 2:
+                doc = {"n": None, "unique": True, "connected_only": False}
+                kw = {k: v for k, v in kw.items() if not (v is doc[k] or (v == doc[k] and type(v) is type(doc[k])))}
+            res = apply_rule(g, rule, **kw)
         if n_matches is not None and len(res) > 3 * n_matches + 20:
             # cannot be right (at most one result per mapping) and too large to ship to the driver
             raise ValueError("apply_rule returned %d results for %d mappings" % (len(res), n_matches))
